@@ -1,5 +1,6 @@
 #!/usr/bin/env python3
 
+import copy
 import functools
 from abc import ABC, abstractproperty
 from copy import deepcopy
@@ -85,6 +86,16 @@ class _VariationalStrategy(Module, ABC):
 
     def _clear_cache(self) -> None:
         clear_cache_hook(self)
+
+    def __deepcopy__(self, memo):
+        # Memoized quantities may hang on an autograd graph (after any training-mode call), and torch cannot deep-copy
+        # non-leaf tensors. They are recomputed on demand, so a copy starts without them.
+        result = self.__class__.__new__(self.__class__)
+        memo[id(self)] = result
+        for name, value in self.__dict__.items():
+            if name != "_memoize_cache":
+                result.__dict__[name] = copy.deepcopy(value, memo)
+        return result
 
     def _expand_inputs(self, x: Tensor, inducing_points: Tensor) -> Tuple[Tensor, Tensor]:
         """
